@@ -40,7 +40,7 @@ def correspondence(ctx):
     ctx.exhaustive = True
     for name in S.ALL:
         rng = ctx.rng("c09", name)
-        bench = B.Bench(name, rng, size=2 * L + 6)
+        bench = B.Bench(name, rng, size=2 * L + 6, need_hash=False)
         stream = "invert:" + name
         if not bench.ok(2 * L + 2):
             ctx.stream(stream)["skipped"] = "pool too small"
@@ -54,6 +54,14 @@ def correspondence(ctx):
             model = ans.split(" ")[0]
             try:
                 r = bench.rclass(constraints=objs)
+                if dom[i]:
+                    # history: the range answers membership questions BEFORE it is inverted (anything it remembers
+                    # about them must not travel into the inverse)
+                    for x in range(1, 2 * len(cons) + 2):
+                        try:
+                            m[x][1] in r
+                        except Exception:  # noqa: BLE001
+                            pass
                 ri = r.invert()
                 if ri is None:
                     impl = "none"
@@ -70,8 +78,12 @@ def correspondence(ctx):
                 continue
             if dom[i] and ri is not None:
                 for x in range(1, 2 * len(cons) + 2):
+                    # the same object that was put to the original, then another spelling of the same version
                     xv = m[x][1]
                     got = B.res_bool(lambda: xv in ri)
+                    if x % 2 == 0 and got == B.res_bool(lambda: xv in ri):
+                        xv = bench.alt(m[x], rng)[1]
+                        got = B.res_bool(lambda: xv in ri)
                     den = danswers[dindex[(i, x)]].split(" ")[0]
                     want = "ok:false" if den == "true" else "ok:true"
                     ctx.count(stream + ":complement", key=(line, x), nontrivial=len(cons) >= 2)
@@ -100,3 +112,51 @@ def correspondence(ctx):
                                  {"scheme": name, "constraint": B.TXT[c] + m[1][0], "version": m[x][0]}, spec="flipped")
         if name == "gem":
             ctx.sample({"line": lines[30], "model wf nonvacuous": answers[30], "scheme": name})
+    _shared_version_class(ctx, jobs, answers, dom)
+
+
+def _shared_version_class(ctx, jobs, answers, dom):
+    """range classes that share one version class (npm, cargo, hex, github, generic, apache, mozilla, mattermost all
+    hold SemverVersion): the same constraint objects inverted under each of them, in one process — the inverse must be
+    of the class it was asked of, and inverting it again must give the original back"""
+    from univers import version_range as VR
+    by_vc = {}
+    for scheme, rc in VR.RANGE_CLASS_BY_SCHEMES.items():
+        if rc.version_class is not None:
+            by_vc.setdefault(rc.version_class, []).append(rc)
+    rng = ctx.rng("c09-shared")
+    for vc, rcs in by_vc.items():
+        if len(rcs) < 2:
+            continue
+        name = next((n for n in S.ALL if S.vclass(n) is vc), None)
+        if name is None:
+            continue
+        bench = B.Bench(name, rng, size=14)
+        if not bench.ok(10):
+            continue
+        stream = "invert-shared:" + vc.__name__
+        idx = [i for i in range(len(jobs)) if dom[i]]
+        for i in rng.sample(idx, min(len(idx), 200 if ctx.thorough else 60)):
+            cons = jobs[i]
+            m = bench.mapping(10, rng)
+            objs = B.real_cons(bench, cons, m)
+            order = list(rcs)
+            rng.shuffle(order)
+            for rc in order:
+                ctx.count(stream, key=(i, rc.__name__), nontrivial=len(cons) >= 2)
+                try:
+                    r = rc(constraints=list(objs))
+                    ri = r.invert()
+                    why = None
+                    if type(ri) is not rc:
+                        why = "the inverse of a %s is a %s" % (rc.__name__, type(ri).__name__)
+                    elif not (ri.invert() == r) or str(ri.invert()) != str(r):
+                        why = "inverting twice gives %s, not %s" % (ri.invert(), r)
+                except Exception as e:  # noqa: BLE001
+                    why = "raises %s" % B.exc_name(e)
+                if why:
+                    ctx.disagree(stream, "invert %s as %s" % (B.cons_line(cons), rc.__name__), why, "inverse of the same class; involution", True,
+                                 dict(B.describe(bench, cons, m), range_class=rc.__name__,
+                                      history="the same constraints were inverted under %s earlier in this process" % ", ".join(c.__name__ for c in order)),
+                                 spec="involution")
+                    break
